@@ -39,7 +39,13 @@ def pool(run, n):
               "WITH w AS (SELECT t.a, u.c FROM t, db.u) SELECT count(1) AS n FROM w"]:
         reqs.append("LINEAGEO %s | %s" % (cat, stmt.cps(q)))
     run.rng.shuffle(reqs)
-    return reqs[:380]
+    reqs = reqs[:380]
+    # spellings whose meaning depends on the dialect, under every dialect: an earlier call in another dialect must not change them
+    for q in ["SELECT !a = b FROM t", "SELECT a FROM t WHERE !(a > 1) AND b == 2", "SELECT CURRENT DATE FROM t", "SELECT a % 2, arr[1] FROM t", "SELECT a FROM t WHERE NOT a = b"]:
+        for d in ("HIVE", "MYSQL", "DEFAULT", "DB2", "HIVE", "ORACLE"):
+            reqs.insert(run.rng.randrange(len(reqs) + 1), sqlgen.parse_request("statements", d, q))
+            reqs.insert(run.rng.randrange(len(reqs) + 1), stmt.print_request("statements", d, run.rng.choice(["HIVE", "MYSQL", "DB2"]), q))
+    return reqs
 
 
 def answers_single(reqs, extra_args=(), hashseed=None):
